@@ -153,6 +153,8 @@ class Product:
         obj, kind, op, iargs = n.desc
         if kind == 'Input':
             return 'B'
+        if kind == 'Counter':
+            return 'N'  # observed by the step invariant at every instant
         if len(self.obj_threads.get(obj, ())) <= 1 and kind != 'Thread':
             return 'B'
         if kind == 'Lock':
